@@ -14,7 +14,8 @@ SHRINK = False
 RULE = ("types as in C04 plus recursive and mutually recursive declared types, unsupported kinds at any depth (func, chan, complex, "
         "non-string map keys), types occurring several times; options: IgnoreInvalidTypes on/off, TypeSchemas overriding named types. "
         "Observed on the real package directly: two calls marshal identically and share no *Schema with each other nor with TypeSchemas; "
-        "Resolve accepts the result; for struct types the property names / order = the keys json.Marshal emits for a fully populated value "
+        "Resolve accepts the result and no Schema object occurs twice in it, also when a TypeSchemas entry uses one subschema object at "
+        "several positions (~5% of the operations: entries from a grammar over the subschema-bearing keywords, made DAGs in the harness); for struct types the property names / order = the keys json.Marshal emits for a fully populated value "
         "and required fields are always emitted for the zero value; recursive types give an error (no hang); unsupported kinds give an "
         "error or are dropped. The marshaled schema = the model's forType (types with embedded fields: real package only). "
         "Non-trivial: composite type; distinct = operation text")
@@ -36,6 +37,101 @@ TS_EMBED_POOL = [Obj([("type", "object"), ("properties", Obj([("q", Obj([("type"
                  Obj([("type", "object"), ("properties", Obj([("ov2", Obj([("type", "string")])), ("ov1", Obj([("oneOf", [True, Obj([("type", "null")])])]))]))]),
                  Obj([("type", "object")]), Obj([("type", "string")]),
                  Obj([("type", "object"), ("properties", Obj([("q", True)])), ("required", ["q"])])]
+
+
+def _to_obj(x):
+    if isinstance(x, dict):
+        return Obj([(k, _to_obj(v)) for k, v in x.items()])
+    if isinstance(x, list):
+        return [_to_obj(v) for v in x]
+    return x
+
+
+def dag_entry(rng):
+    """(schema, share): a reference-free TypeSchemas entry drawn from a small grammar over the subschema-bearing keywords (properties,
+    prefixItems, items, additionalProperties, allOf / anyOf / oneOf, not, if / then, contains, $defs, patternProperties), in which one
+    subschema OBJECT sits at two (rarely three) positions: `share` lists pairs of JSON Pointers [a, b]; the harness makes the position
+    b hold the same *Schema as the position a (what an entry written in Go with one leaf variable used twice looks like). The JSON text
+    at b is a copy of the text at a, so the entry reads the same with and without sharing; neither position lies inside the other."""
+    import copy
+    leaves = [{"type": "number"}, {"type": "string"}, {"type": "integer", "minimum": 0}, {}, {"type": "boolean"}, {"type": ["string", "null"]}]
+    pos = []        # (pointer segments, container, key) of every proper subschema
+
+    def sub(container, key, path, depth):
+        container[key] = tree(path, depth)
+        pos.append((path, container, key))
+
+    def tree(path, depth):
+        if depth <= 0 or rng.random() < 0.25:
+            return copy.deepcopy(rng.choice(leaves))
+        form = rng.choice(["props", "props", "prefix", "comb", "addl", "items", "not", "ifthen", "contains", "defs", "pattern"])
+        s = {}
+        if form == "props":
+            s["type"] = "object"
+            s["properties"] = {}
+            for k in rng.sample(["Lo", "Hi", "q", "a/b", "x~y"], rng.randint(2, 3)):
+                sub(s["properties"], k, path + ["properties", k.replace("~", "~0").replace("/", "~1")], depth - 1)
+        elif form == "prefix":
+            s["type"] = "array"
+            s["prefixItems"] = [None, None]
+            for i in range(2):
+                sub(s["prefixItems"], i, path + ["prefixItems", str(i)], depth - 1)
+            if rng.random() < 0.5:
+                sub(s, "items", path + ["items"], depth - 1)
+        elif form == "comb":
+            kw = rng.choice(["allOf", "anyOf", "oneOf"])
+            s[kw] = [None, None]
+            for i in range(2):
+                sub(s[kw], i, path + [kw, str(i)], depth - 1)
+        elif form == "addl":
+            s["type"] = "object"
+            sub(s, "additionalProperties", path + ["additionalProperties"], depth - 1)
+        elif form == "items":
+            s["type"] = "array"
+            sub(s, "items", path + ["items"], depth - 1)
+        elif form == "not":
+            sub(s, "not", path + ["not"], depth - 1)
+        elif form == "ifthen":
+            sub(s, "if", path + ["if"], depth - 1)
+            kw = rng.choice(["then", "else"])
+            sub(s, kw, path + [kw], 0)
+        elif form == "contains":
+            s["type"] = "array"
+            sub(s, "contains", path + ["contains"], depth - 1)
+        elif form == "defs":
+            s["$defs"] = {}
+            sub(s["$defs"], "d", path + ["$defs", "d"], depth - 1)
+            sub(s, "not", path + ["not"], 0)
+        else:
+            s["patternProperties"] = {}
+            sub(s["patternProperties"], "^x", path + ["patternProperties", "^x"], depth - 1)
+            sub(s, "additionalProperties", path + ["additionalProperties"], 0)
+        return s
+
+    def related(a, b):
+        n = min(len(a), len(b))
+        return a[:n] == b[:n]
+
+    for _ in range(50):
+        pos.clear()
+        root = tree([], rng.choice([2, 2, 3]))
+        if not isinstance(root, dict) or len(pos) < 2:
+            continue
+        share, gone = [], []
+        for _ in range(rng.choice([1, 1, 1, 2])):
+            live = [p for p in pos if not any(p[0][:len(g)] == g for g in gone)]
+            # b outside a (no cycle, no self-reference) and unrelated to the positions of an earlier pair (they stay what they are)
+            pairs = [(a, b) for a in live for b in live if not related(a[0], b[0])
+                     and not any(related(b[0], q) for pr in share for q in pr)]
+            if not pairs:
+                break
+            a, b = rng.choice(pairs)
+            b[1][b[2]] = copy.deepcopy(a[1][a[2]])
+            share.append((a[0], b[0]))
+            gone.append(b[0])
+        if share:
+            return _to_obj(root), [["/" + "/".join(x), "/" + "/".join(y)] for x, y in share]
+    return Obj([("type", "object"), ("properties", Obj([("Lo", Obj([("type", "number")])), ("Hi", Obj([("type", "number")]))]))]), [["/properties/Lo", "/properties/Hi"]]
 
 
 def gen(rng, tier, n):
@@ -91,21 +187,18 @@ def gen(rng, tier, n):
         elif r < 0.48:
             # one declared type several times in one type, through different wrappers, in every order (what is learnt about a type at
             # its first occurrence must not colour the later ones)
-            nm = rng.choice(["Inner", "Inner2", "Deep", "Empty", "MyInt", "MyInts", "Levels", "DescTag", "HoldsPtrs"] + gt.GEN["names"][:8])
+            t = gt.repeated_named_case(rng, used, ["Inner", "Inner2", "Deep", "Empty", "MyInt", "MyInts", "Levels", "DescTag", "HoldsPtrs"] + gt.GEN["names"][:8])
+        elif r < 0.53:
+            # a TypeSchemas entry that is a DAG: one subschema object at several positions inside the entry (harness option `share`);
+            # the overridden type occurs several times; the result must still be a tree that shares nothing with the entry
+            nm = rng.choice(["Inner", "MyInt", "Twice", "Levels", "Empty", "MyString"] + gt.GEN["names"][:4])
+            sch, share = dag_entry(rng)
+            opts["typeSchemas"] = [{"name": nm, "schema": sch, "share": share}]
             N = {"k": "named", "name": nm}
-            wraps = [N, {"k": "ptr", "e": N}, {"k": "slice", "e": N}, {"k": "slice", "e": {"k": "ptr", "e": N}}, {"k": "map", "key": "string", "e": N},
-                     {"k": "map", "key": "string", "e": {"k": "ptr", "e": N}}, {"k": "array", "n": 2, "e": N}, {"k": "ptr", "e": {"k": "ptr", "e": N}},
-                     {"k": "struct", "fields": [{"name": "In", "tag": 'json:"in"', "t": N}]}]
-            ws = [rng.choice(wraps) for _ in range(rng.randint(2, 4))]
-            tags = ['json:"%s"', 'json:"%s,omitempty"', "", 'json:"%s,omitzero"']
-            fields = []
-            for i, w in enumerate(ws):
-                tg = rng.choice(tags)
-                fields.append({"name": "F%d" % i, "tag": (tg % ("f%d" % i)) if "%s" in tg else tg, "t": w})
-            t = {"k": "struct", "fields": fields}
-            if rng.random() < 0.3:
-                t = {"k": rng.choice(["slice", "ptr"]), "e": t}
-            used.add(nm)
+            t = rng.choice([{"k": "struct", "fields": [{"name": "P", "tag": 'json:"p"', "t": N}, {"name": "Q", "tag": 'json:"q"', "t": {"k": "slice", "e": N}}]},
+                            {"k": "struct", "fields": [{"name": "R", "tag": 'json:"r"', "t": {"k": "ptr", "e": N}}, {"name": "P", "tag": 'json:"p"', "t": N},
+                                                         {"name": "Z", "tag": 'json:"z,omitempty"', "t": t}]},
+                            {"k": "map", "key": "string", "e": N}, {"k": "struct", "fields": [{"name": "A", "tag": "", "t": N}]}, N])
         raw.append((t, opts, used, pre))
     # the structure of every type as reflect shows it (input of the model)
     tops = [{"id": i, "op": "typeinfo", "args": {"type": t}} for i, (t, _, _, _) in enumerate(raw)]
@@ -157,6 +250,9 @@ def judge(o, go, m):
             return "violation", "two calls of ForType(%s) marshal differently" % go.get("gotype")
         if go.get("shared"):
             return "violation", "results of ForType(%s) share %d Schema object(s) with each other or with TypeSchemas" % (go.get("gotype"), go["shared"])
+        if go.get("dag"):
+            return "violation", "the result of ForType(%s) is not a tree: %d Schema object(s) occur at more than one position (TypeSchemas %s)" \
+                                % (go.get("gotype"), go["dag"], [(x.get("name"), x.get("share")) for x in opts.get("typeSchemas", [])])
         if not go.get("resolves") and (not opts.get("typeSchemas") or "not form a tree" in str(go.get("resolve_detail"))):
             if k:
                 return "known:" + k, str(go.get("resolve_detail"))
